@@ -105,7 +105,7 @@ def py_truncate(s, length, ell):
 def ob_truncate(chk, P, maxlen):
     with chk.obligation('truncate/strings', 'truncate counts CHARACTERS: a string of at most `length` characters is returned unchanged, a longer one is cut to max(length - |ellipsis|, 0) characters '
                         'followed by the ellipsis, so the result is never longer than max(length, |ellipsis|); no panic',
-                        {'string': f'0..{maxlen} characters, each any Unicode scalar value (one grapheme per character: no combining marks)', 'length': 'any i64', 'ellipsis': "absent ('...') or a string of 0..2 characters"}) as ob:
+                        {'string': f'0..{maxlen} characters, each any Unicode scalar value (one grapheme per character: no combining marks U+0300..U+036F, no CR)', 'length': 'any i64', 'ellipsis': "absent ('...') or a string of 0..2 characters"}) as ob:
         ex = Executor(P, models_with([])); ex.seed = chk.seed; ex.max_steps = 20000
         fn = P.find_method('TruncateFilter', 'evaluate', 'Filter', 'lib')
         ob.assumptions += ['grapheme clusters are single code points (inputs without combining marks / ZWJ / regional indicators)']
@@ -113,6 +113,7 @@ def ob_truncate(chk, P, maxlen):
             for ell_n in (None, 0, 1, 2):
                 st = State()
                 cs = sym_string(st, n); es = sym_string(st, ell_n or 0, 'e')
+                for c in cs: st.assume(z3.And(z3.Or(z3.ULT(c, 0x300), z3.UGT(c, 0x36F)), c != 13))       # one grapheme per character (see the stated assumption)
                 ln = z3.BitVec('len', 64)
                 args = Adt('TruncateArgs', None, [Some(expr_stub(value_scalar(scalar_int(Int(ln, 'i64'))), 'length')),
                                                   Some(expr_stub(value_scalar(Adt('ScalarCow', None, [Adt('ScalarCowEnum', 'Str', [StrV(es, 'KStringCow')])])), 'ellipsis')) if ell_n is not None else NONE], ['length', 'ellipsis'])
@@ -240,7 +241,11 @@ def spec_replace(limit, with_to):
     def spec(cs, args, res):
         pat = args[0]; to = args[1] if with_to and len(args) > 1 else []
         if not pat:
-            return z3.BoolVal(True)        # empty search string: std semantics (insert at every boundary) -- not specified by the property
+            # the empty string occurs at every character boundary, both ends included (what Ruby's sub/gsub and Rust's replacen/replace do)
+            if limit == 1: return eq_chars(res, list(to) + list(cs))
+            out = list(to)
+            for c in cs: out += [c] + list(to)
+            return eq_chars(res, out)
         def build(pieces):
             out = []
             for k, p in enumerate(pieces):
@@ -336,10 +341,10 @@ def py_reference(name, s, av):
     if name == 'strip_newlines': return s.replace('\n', '').replace('\r', '')
     if name == 'append': return s + av[0]
     if name == 'prepend': return av[0] + s
-    if name == 'replace': return s.replace(av[0], av[1]) if av[0] else None
-    if name == 'replace_first': return s.replace(av[0], av[1], 1) if av[0] else None
-    if name == 'remove': return s.replace(av[0], '') if av[0] else None
-    if name == 'remove_first': return s.replace(av[0], '', 1) if av[0] else None
+    if name == 'replace': return s.replace(av[0], av[1])
+    if name == 'replace_first': return s.replace(av[0], av[1], 1)
+    if name == 'remove': return s.replace(av[0], '')
+    if name == 'remove_first': return s.replace(av[0], '', 1)
     if name == 'newline_to_br': return s.replace('\n', '<br />\n')
     if name == 'first': return s[:1]
     if name == 'last': return s[-1:]
